@@ -51,6 +51,7 @@ class Run:
         self.known = load_known()
         self.violations = {}       # signature -> (witness, text)
         self.known_hit = {}        # signature -> count
+        self.known_witness = {}    # signature -> first (witness, text) met in this run
         self.evaluations = 0
         self.nontrivial = set()
         self.samples = []
@@ -83,6 +84,7 @@ class Run:
             signature = self.prop + "/" + signature
         if signature in self.known:
             self.known_hit[signature] = self.known_hit.get(signature, 0) + 1
+            self.known_witness.setdefault(signature, (witness, text))
             return False
         if signature not in self.violations:
             self.violations[signature] = (witness, text)
@@ -90,10 +92,12 @@ class Run:
 
     def export(self):
         """what a worker-side collector hands back to the main Run"""
-        return (self.violations, self.known_hit)
+        return (self.violations, self.known_hit, self.known_witness)
 
     def merge(self, exported):
-        vios, hits = exported
+        vios, hits, kw = exported
+        for sig, v in kw.items():
+            self.known_witness.setdefault(sig, v)
         for sig, (wit, text) in vios.items():
             if sig not in self.violations:
                 self.violations[sig] = (wit, text)
@@ -107,6 +111,14 @@ class Run:
         for sig, cnt in sorted(self.known_hit.items()):
             print("KNOWN-FINDING: property=%s %s -- %s (seen %d times)" %
                   (self.prop, sig, self.known[sig].get("what", ""), cnt))
+        for sig, (witness, text) in sorted(self.known_witness.items()):
+            d = os.path.join(REPLAY_DIR, self.prop)
+            os.makedirs(d, exist_ok=True)
+            h = hashlib.sha1(sig.encode()).hexdigest()[:12]
+            with open(os.path.join(d, "known-" + h + ".json"), "w") as f:
+                json.dump({"property": self.prop, "signature": sig, "seed": seed(),
+                           "tier": self.tier, "explanation": text, "witness": witness,
+                           "known_finding": True}, f, indent=1, default=repr)
         vio_lines = []
         for sig, (witness, text) in sorted(self.violations.items()):
             d = os.path.join(REPLAY_DIR, self.prop)
